@@ -1,6 +1,7 @@
 """REFPNG - independent PNG decoder/encoder (zlib + CRC + unfilter); no pypng, no picotool.
 
-Supports what .p8.png files use: 8-bit, colour types 2 (RGB) and 6 (RGBA), non-interlaced.
+Supports what .p8.png files use: 8-bit, colour types 2 (RGB) and 6 (RGBA), plain or Adam7-interlaced (picotool
+re-uses the attributes of an existing destination, so what an image editor saved there comes back out).
 """
 import struct
 import zlib
@@ -55,7 +56,7 @@ def decode(data):
     if ch[0][0] != b'IHDR' or len(ch[0][1]) != 13:
         raise PNGError('first chunk is not IHDR')
     w, h, depth, ctype, comp, filt, inter = struct.unpack('>IIBBBBB', ch[0][1])
-    if depth != 8 or ctype not in (2, 6) or comp != 0 or filt != 0 or inter != 0:
+    if depth != 8 or ctype not in (2, 6) or comp != 0 or filt != 0 or inter not in (0, 1):
         raise PNGError('unsupported PNG flavour depth=%d type=%d interlace=%d' % (depth, ctype, inter))
     planes = 4 if ctype == 6 else 3
     idat = b''.join(body for typ, body in ch if typ == b'IDAT')
@@ -63,12 +64,37 @@ def decode(data):
         raw = zlib.decompress(idat)
     except zlib.error as e:
         raise PNGError('bad zlib stream: %s' % e)
+    if inter == 0:
+        rows, pos = _unfilter_pass(raw, 0, w, h, planes)
+    else:
+        rows = [bytearray(w * planes) for _ in range(h)]
+        pos = 0
+        for x0, y0, dx, dy in ADAM7:
+            pw = (w - x0 + dx - 1) // dx if w > x0 else 0
+            ph = (h - y0 + dy - 1) // dy if h > y0 else 0
+            if pw == 0 or ph == 0:
+                continue
+            sub, pos = _unfilter_pass(raw, pos, pw, ph, planes)
+            for j, line in enumerate(sub):
+                row = rows[y0 + j * dy]
+                for i in range(pw):
+                    x = x0 + i * dx
+                    row[x * planes:(x + 1) * planes] = line[i * planes:(i + 1) * planes]
+        rows = [bytes(r) for r in rows]
+    if pos != len(raw):
+        raise PNGError('image data has %d bytes, expected %d' % (len(raw), pos))
+    return w, h, planes, rows
+
+
+ADAM7 = ((0, 0, 8, 8), (4, 0, 8, 8), (0, 4, 4, 8), (2, 0, 4, 4), (0, 2, 2, 4), (1, 0, 2, 2), (0, 1, 1, 2))
+
+
+def _unfilter_pass(raw, pos, w, h, planes):
     stride = w * planes
-    if len(raw) != (stride + 1) * h:
-        raise PNGError('image data has %d bytes, expected %d' % (len(raw), (stride + 1) * h))
+    if len(raw) < pos + (stride + 1) * h:
+        raise PNGError('image data has %d bytes, need at least %d' % (len(raw), pos + (stride + 1) * h))
     rows = []
     prev = bytearray(stride)
-    pos = 0
     for _y in range(h):
         ft = raw[pos]
         line = bytearray(raw[pos + 1:pos + 1 + stride])
@@ -94,21 +120,70 @@ def decode(data):
             raise PNGError('bad filter type %d' % ft)
         rows.append(bytes(line))
         prev = line
-    return w, h, planes, rows
+    return rows, pos
 
 
 def _chunk(typ, body):
     return struct.pack('>I', len(body)) + typ + body + struct.pack('>I', zlib.crc32(typ + body) & 0xffffffff)
 
 
-def encode(width, height, rows, planes=4):
-    """Encode 8-bit RGB/RGBA rows (each planes*width bytes) as a PNG."""
-    ctype = 6 if planes == 4 else 2
+def _filter_line(ft, line, prev, planes):
+    n = len(line)
+    if ft == 0:
+        return bytes(line)
+    out = bytearray(n)
+    for i in range(n):
+        a = line[i - planes] if i >= planes else 0
+        b = prev[i]
+        c = prev[i - planes] if i >= planes else 0
+        if ft == 1:
+            p = a
+        elif ft == 2:
+            p = b
+        elif ft == 3:
+            p = (a + b) >> 1
+        else:
+            p = _paeth(a, b, c)
+        out[i] = (line[i] - p) & 255
+    return bytes(out)
+
+
+def _filtered(rows, planes, filters):
     raw = bytearray()
+    prev = bytes(len(rows[0])) if rows else b''
+    for y, r in enumerate(rows):
+        ft = filters[y % len(filters)]
+        raw.append(ft)
+        raw.extend(_filter_line(ft, r, prev, planes))
+        prev = r
+    return raw
+
+
+def encode(width, height, rows, planes=4, interlace=False, filters=(0,), ancillary=(), idat_split=0, level=6):
+    """Encode 8-bit RGB/RGBA rows (each planes*width bytes) as a PNG.
+
+    interlace: Adam7; filters: filter types cycled over the scanlines (of each pass); ancillary: (type, body)
+    chunks placed between IHDR and IDAT; idat_split: cut the zlib stream into IDAT chunks of this many bytes."""
+    ctype = 6 if planes == 4 else 2
     for r in rows:
         if len(r) != width * planes:
             raise PNGError('row length')
-        raw.append(0)
-        raw.extend(r)
-    return (SIG + _chunk(b'IHDR', struct.pack('>IIBBBBB', width, height, 8, ctype, 0, 0, 0)) +
-            _chunk(b'IDAT', zlib.compress(bytes(raw), 6)) + _chunk(b'IEND', b''))
+    if not interlace:
+        raw = _filtered([bytes(r) for r in rows], planes, filters)
+    else:
+        raw = bytearray()
+        for x0, y0, dx, dy in ADAM7:
+            if width <= x0 or height <= y0:
+                continue
+            sub = []
+            for y in range(y0, height, dy):
+                r = rows[y]
+                sub.append(b''.join(bytes(r[x * planes:(x + 1) * planes]) for x in range(x0, width, dx)))
+            raw += _filtered(sub, planes, filters)
+    z = zlib.compress(bytes(raw), level)
+    if idat_split:
+        idats = b''.join(_chunk(b'IDAT', z[i:i + idat_split]) for i in range(0, len(z), idat_split))
+    else:
+        idats = _chunk(b'IDAT', z)
+    return (SIG + _chunk(b'IHDR', struct.pack('>IIBBBBB', width, height, 8, ctype, 0, 0, 1 if interlace else 0)) +
+            b''.join(_chunk(t, b) for t, b in ancillary) + idats + _chunk(b'IEND', b''))
